@@ -394,6 +394,39 @@ func c09(c *h.Ctx) {
 		}
 	}
 
+	// 2b. the 24-bit size boundary in EVERY tier, on the implementation alone (no 16 MiB lists in the oracle):
+	// layout by the independent re-parser (PreviousTagSize = 11 + size needs all 32 bits there) and round trip.
+	for _, n := range []int{1<<24 - 12, 1<<24 - 11, 1<<24 - 2, 1<<24 - 1} {
+		body := h.LCGBytes(n, uint32(n))
+		t := flvTag{ty: 9, ts: 1<<24 + 1, body: body, desc: fmt.Sprintf("p:%d:%d", n, n)}
+		in := fmt.Sprintf("flv.mux 1 1 9:%d:p:%d:%d (implementation only)", t.ts, n, n)
+		file, res := flvMux(true, true, []flvTag{t})
+		c.Hold(res == "ok", "mux.ok", in, res, "ok")
+		if res == "ok" {
+			c.Hold(flvLayoutOK(file, true, true, []flvTag{t}), "mux.layout", in, fmt.Sprintf("%d bytes, trailer %x", len(file), file[len(file)-4:]), "Annex E layout, PreviousTagSize = 11 + size")
+			ok := h.Safe(func() string {
+				d, _ := flv.NewDemuxer(bytes.NewReader(file))
+				if _, _, _, err := d.ReadHeader(); err != nil {
+					return "header err"
+				}
+				ty, sz, ts, err := d.ReadTagHeader()
+				if err != nil || uint8(ty) != 9 || int(sz) != n || ts != t.ts {
+					return fmt.Sprintf("tag header %v %v %v %v", ty, sz, ts, err)
+				}
+				b, err := d.ReadTag(sz)
+				if err != nil || !bytes.Equal(b, body) {
+					return "body differs"
+				}
+				if _, _, _, err := d.ReadTagHeader(); flvErrClass(err) != "err-eof" {
+					return "no clean EOF"
+				}
+				return "ok"
+			})
+			c.Hold(ok == "ok", "demux_mux.whole", in, ok, "ok")
+		}
+		c.Case("grid/size~2^24(impl-only)", in, true)
+	}
+
 	// 3. random files: 0..8 tags, boundary-biased sizes and timestamps.
 	pickSize := func() int {
 		switch r.Intn(10) {
